@@ -19,12 +19,11 @@ structure Pt where
   t : Int
 
 /-- the point-level collocation criterion (what C04 establishes for `collocate`) -/
-def collocated (near : Nat → Nat → Bool) (mi start end_ : Int) (a c : Pt) : Bool :=
-  near a.id c.id && decide (|a.t - c.t| < mi) && decide (start ≤ a.t) && decide (a.t ≤ end_) &&
-    decide (start ≤ c.t) && decide (c.t ≤ end_)
+def collocated (near : Nat → Nat → Bool) (mi : Int) (start end_ : Option Int) (a c : Pt) : Bool :=
+  near a.id c.id && decide (|a.t - c.t| < mi) && inPeriod start end_ a.t && inPeriod start end_ c.t
 
 /-- all collocations between two lists of points (as label pairs, with multiplicity) -/
-def pointPairs (near : Nat → Nat → Bool) (mi start end_ : Int) (P S : List Pt) : List Pair :=
+def pointPairs (near : Nat → Nat → Bool) (mi : Int) (start end_ : Option Int) (P S : List Pt) : List Pair :=
   P.flatMap (fun a => S.flatMap (fun c =>
     if collocated near mi start end_ a c then [(a.id, c.id)] else []))
 
@@ -255,14 +254,14 @@ theorem sum_over_matches (flat : List (Nat × Nat)) (n1 n2 : Nat) (PP : Nat → 
     have : PP m.1 m.2 = [] := hzero m.1 hm.1 m.2 hm.2 (fun h => hnot (List.mem_toFinset.mpr h))
     simp [this]
 
-theorem pointPairs_flatMap_left (near : Nat → Nat → Bool) (mi start end_ : Int) (L : List Nat)
+theorem pointPairs_flatMap_left (near : Nat → Nat → Bool) (mi : Int) (start end_ : Option Int) (L : List Nat)
     (pts : Nat → List Pt) (S : List Pt) :
     pointPairs near mi start end_ (L.flatMap pts) S =
       L.flatMap (fun i => pointPairs near mi start end_ (pts i) S) := by
   unfold pointPairs
   rw [List.flatMap_assoc]
 
-theorem pointPairs_flatMap_right (near : Nat → Nat → Bool) (mi start end_ : Int) (A : List Pt)
+theorem pointPairs_flatMap_right (near : Nat → Nat → Bool) (mi : Int) (start end_ : Option Int) (A : List Pt)
     (L : List Nat) (pts : Nat → List Pt) :
     (pointPairs near mi start end_ A (L.flatMap pts)).Perm
       (L.flatMap (fun j => pointPairs near mi start end_ A (pts j))) := by
@@ -270,7 +269,7 @@ theorem pointPairs_flatMap_right (near : Nat → Nat → Bool) (mi start end_ : 
   simp only [List.flatMap_assoc]
   exact flatMap_swap_perm A L _
 
-theorem pointPairs_eq_nil (near : Nat → Nat → Bool) (mi start end_ : Int) (P S : List Pt)
+theorem pointPairs_eq_nil (near : Nat → Nat → Bool) (mi : Int) (start end_ : Option Int) (P S : List Pt)
     (h : ∀ a ∈ P, ∀ c ∈ S, collocated near mi start end_ a c = false) :
     pointPairs near mi start end_ P S = [] := by
   unfold pointPairs
@@ -295,22 +294,41 @@ theorem itemsPairs_eq (is : List Item) :
       congr 1
       rw [List.flatMap_map]
 
-theorem total_perm (near : Nat → Nat → Bool) (mi start end_ : Int)
+/-- the readable part of a fileset: unreadable files contribute no data -/
+def readable (bad : Nat → Bool) (pts : Nat → List Pt) : Nat → List Pt :=
+  fun i => if bad i then [] else pts i
+
+theorem pointPairs_nil_left (near : Nat → Nat → Bool) (mi : Int) (start end_ : Option Int) (S : List Pt) :
+    pointPairs near mi start end_ [] S = [] := rfl
+
+theorem pointPairs_nil_right (near : Nat → Nat → Bool) (mi : Int) (start end_ : Option Int) (P : List Pt) :
+    pointPairs near mi start end_ P [] = [] := by
+  unfold pointPairs; simp
+
+theorem outcome_skip_nocrash (bad1 bad2 : Nat → Bool) (coll : Nat → Nat → Option Result) (p s : Nat) :
+    outcome true bad1 bad2 coll p s ≠ .crash := by
+  unfold outcome; split <;> simp
+
+/-- general form: `skip_file_errors=True`, any set of unreadable files -/
+theorem total_perm_skip (near : Nat → Nat → Bool) (mi : Int) (start end_ : Option Int)
     (n1 n2 : Nat) (cov1 cov2 : Nat → Int × Int) (pts1 pts2 : Nat → List Pt)
-    (hcov1 : ∀ i < n1, ∀ a ∈ pts1 i, (cov1 i).1 ≤ a.t ∧ a.t ≤ (cov1 i).2)
-    (hcov2 : ∀ j < n2, ∀ c ∈ pts2 j, (cov2 j).1 ≤ c.t ∧ c.t ≤ (cov2 j).2)
+    (hcov1 : ∀ i < n1, ∀ a ∈ pts1 i, (cov1 i).1 ≤ a.t ∧ a.t ≤ (cov1 i).2 ∧ dtMin ≤ a.t ∧ a.t < dtMax)
+    (hcov2 : ∀ j < n2, ∀ c ∈ pts2 j, (cov2 j).1 ≤ c.t ∧ c.t ≤ (cov2 j).2 ∧ dtMin ≤ c.t ∧ c.t < dtMax)
+    (bad1 bad2 : Nat → Bool)
     (coll : Nat → Nat → Option Result)
-    (hcoll : ∀ i j, (resultPairs (coll i j)).Perm (pointPairs near mi start end_ (pts1 i) (pts2 j)))
+    (hcoll : ∀ i j, bad1 i = false → bad2 j = false →
+      (resultPairs (coll i j)).Perm (pointPairs near mi start end_ (pts1 i) (pts2 j)))
     (b : Bundle) (processes : Option Nat) (hp : ∀ k, processes = some k → 1 ≤ k)
     (ms : List (Nat × List Nat))
     (hm : matchFiles ((List.range n1).map cov1) ((List.range n2).map cov2) start end_ mi = .ok ms)
     (ws : List (List Item))
-    (hw : pipeline b (outcome false (fun _ => false) (fun _ => false) coll) ms processes = .ok ws)
+    (hw : pipeline b (outcome true bad1 bad2 coll) ms processes = .ok ws)
     (evs : List Event) (s : PState)
     (hr : run (initState ws.length (fun w => ws.getD w [])) evs = some s) (hd : s.pc = .done) :
     (itemsPairs (s.yielded.map (·.2))).Perm
-      (pointPairs near mi start end_ ((List.range n1).flatMap pts1) ((List.range n2).flatMap pts2)) := by
-  set oc := outcome false (fun _ => false) (fun _ => false) coll with hoc
+      (pointPairs near mi start end_ ((List.range n1).flatMap (readable bad1 pts1))
+        ((List.range n2).flatMap (readable bad2 pts2))) := by
+  set oc := outcome true bad1 bad2 coll with hoc
   set flat := flattenMatches ms with hflat
   -- 1. parent: yielded ~ concatenation of the workers' items
   have hn : ∀ w, ws.length ≤ w → ws.getD w [] = [] := by
@@ -333,13 +351,14 @@ theorem total_perm (near : Nat → Nat → Bool) (mi start end_ : Int)
     rw [flatMap_getD_range]
   have h1 : (itemsPairs (s.yielded.map (·.2))).Perm (itemsPairs ws.flatten) :=
     List.Perm.flatMap_right _ hy
-  -- 2. workers: the bundles of all workers hold the non-None results of the flattened matches
-  have hnc : ∀ m ∈ flattenMatches ms, oc m.1 m.2 ≠ .crash := by
-    intro m _; simp [hoc, outcome]
+  -- 2. workers: the bundles of all workers hold the non-None results of the readable matches
+  have hnc : ∀ m ∈ flattenMatches ms, oc m.1 m.2 ≠ .crash :=
+    fun m _ => outcome_skip_nocrash bad1 bad2 coll m.1 m.2
   obtain ⟨ws', hw', hdel, _⟩ := pipeline_delivers b oc ms processes hp hnc
   rw [hw] at hw'
   cases hw'
-  have h2 : itemsPairs ws.flatten = flat.flatMap (fun m => resultPairs (coll m.1 m.2)) := by
+  have h2 : itemsPairs ws.flatten = flat.flatMap (fun m =>
+      if (bad1 m.1 || bad2 m.2) then [] else resultPairs (coll m.1 m.2)) := by
     have : itemsPairs ws.flatten = ws.flatMap itemsPairs := by
       unfold itemsPairs
       clear * -
@@ -350,20 +369,26 @@ theorem total_perm (near : Nat → Nat → Bool) (mi start end_ : Int)
     rw [show ws.flatMap itemsPairs = ws.flatMap (fun is =>
         ((bundlesOf is).flatten.map (·.r)).flatMap (·.pairs)) from
       List.flatMap_congr (fun is _ => itemsPairs_eq is)]
-    rw [← List.flatMap_assoc, hdel, produced_mkJobs_plain, ← hflat]
+    rw [← List.flatMap_assoc, hdel, produced_mkJobs_skip, ← hflat]
     clear * -
     induction flat with
     | nil => rfl
     | cons m flat ih =>
-      simp only [List.filterMap_cons, List.flatMap_cons]
-      cases hcoll : coll m.1 m.2 <;> simp [resultPairs, ih]
-  -- 3. C04 contract per file pair
-  have h3 : (flat.flatMap (fun m => resultPairs (coll m.1 m.2))).Perm
-      (flat.flatMap (fun m => pointPairs near mi start end_ (pts1 m.1) (pts2 m.2))) :=
-    List.Perm.flatMap_left _ (fun m _ => hcoll m.1 m.2)
+      rw [List.flatMap_cons, ← ih, List.filter_cons]
+      cases hb : (bad1 m.1 || bad2 m.2)
+      · cases hcoll : coll m.1 m.2 <;> simp [resultPairs, hb, hcoll]
+      · simp [hb]
+  -- 3. C04 contract per readable file pair; unreadable files hold no readable data
+  have h3 : (flat.flatMap (fun m => if (bad1 m.1 || bad2 m.2) then [] else resultPairs (coll m.1 m.2))).Perm
+      (flat.flatMap (fun m => pointPairs near mi start end_ (readable bad1 pts1 m.1) (readable bad2 pts2 m.2))) := by
+    apply List.Perm.flatMap_left
+    intro m _
+    cases hb1 : bad1 m.1
+    · cases hb2 : bad2 m.2
+      · simpa [readable, hb1, hb2] using hcoll m.1 m.2 hb1 hb2
+      · simp [readable, hb1, hb2, pointPairs_nil_right]
+    · simp [readable, hb1, pointPairs_nil_left]
   -- 4. matches → all file pairs
-  have hlen1 : ((List.range n1).map cov1).length = n1 := by simp
-  have hlen2 : ((List.range n2).map cov2).length = n2 := by simp
   have hnd := nodup_flatten_matchFiles hm
   have hmem := mem_flatten_matchFiles hm
   have hsub : ∀ m ∈ flat, m.1 < n1 ∧ m.2 < n2 := by
@@ -373,38 +398,55 @@ theorem total_perm (near : Nat → Nat → Bool) (mi start end_ : Int)
     obtain ⟨a2, _⟩ := mem_findIdx.mp this.2.1
     exact ⟨by simpa using a1, by simpa using a2⟩
   have hzero : ∀ i < n1, ∀ j < n2, (i, j) ∉ flat →
-      pointPairs near mi start end_ (pts1 i) (pts2 j) = [] := by
+      pointPairs near mi start end_ (readable bad1 pts1 i) (readable bad2 pts2 j) = [] := by
     intro i hi j hj hnot
     apply pointPairs_eq_nil
     intro a ha c hc
+    have ha' : a ∈ pts1 i := by
+      unfold readable at ha; split at ha
+      · cases ha
+      · exact ha
+    have hc' : c ∈ pts2 j := by
+      unfold readable at hc; split at hc
+      · cases hc
+      · exact hc
     by_contra hcol
     simp only [Bool.not_eq_false] at hcol
     simp only [collocated, Bool.and_eq_true, decide_eq_true_eq] at hcol
-    obtain ⟨⟨⟨⟨⟨_, hdt⟩, hsa⟩, hae⟩, hsc⟩, hce⟩ := hcol
+    obtain ⟨⟨⟨_, hdt⟩, hpa⟩, hpc⟩ := hcol
     have hdt' := abs_lt.mp hdt
-    have ca := hcov1 i hi a ha
-    have cc := hcov2 j hj c hc
+    have hmi : 0 < mi := lt_of_le_of_lt (abs_nonneg _) hdt
+    have ca := hcov1 i hi a ha'
+    have cc := hcov2 j hj c hc'
     apply hnot
     rw [hflat, hmem]
-    have g1 : ((List.range n1).map cov1)[i]'(by simpa using hi) = cov1 i := by simp
-    have g2 : ((List.range n2).map cov2)[j]'(by simpa using hj) = cov2 j := by simp
-    refine ⟨mem_findIdx.mpr ⟨by simpa using hi, ?_, ?_⟩, mem_findIdx.mpr ⟨by simpa using hj, ?_, ?_⟩, ?_⟩
-    · rw [g1]; omega
-    · rw [g1]; omega
-    · rw [g2]; omega
-    · rw [g2]; omega
-    · have e1 : ((List.range n1).map cov1)[i]? = some (cov1 i) := by simp [hi]
-      have e2 : ((List.range n2).map cov2)[j]? = some (cov2 j) := by simp [hj]
-      simp only [partner, e1, e2, Bool.and_eq_true, decide_eq_true_eq]
-      constructor <;> omega
-  have h4 := sum_over_matches flat n1 n2 (fun i j => pointPairs near mi start end_ (pts1 i) (pts2 j))
-    hnd hsub hzero
-  -- 5. all file pairs → the complete data
+    have l1 : i < ((List.range n1).map cov1).length := by simpa using hi
+    have l2 : j < ((List.range n2).map cov2).length := by simpa using hj
+    have g1 : ((List.range n1).map cov1)[i]'l1 = cov1 i := by simp
+    have g2 : ((List.range n2).map cov2)[j]'l2 = cov2 j := by simp
+    refine ⟨mem_findIdx_widened l1 (by rw [g1]; exact ⟨ca.1, ca.2.1⟩) hmi ca.2.2 hpa,
+            mem_findIdx_widened l2 (by rw [g2]; exact ⟨cc.1, cc.2.1⟩) hmi cc.2.2 hpc, ?_⟩
+    have e1 : ((List.range n1).map cov1)[i]? = some (cov1 i) := by simp [hi]
+    have e2 : ((List.range n2).map cov2)[j]? = some (cov2 j) := by simp [hj]
+    simp only [partner, e1, e2, Bool.and_eq_true, decide_eq_true_eq]
+    constructor <;> omega
+  have h4 := sum_over_matches flat n1 n2
+    (fun i j => pointPairs near mi start end_ (readable bad1 pts1 i) (readable bad2 pts2 j)) hnd hsub hzero
+  -- 5. all file pairs → the complete (readable) data
   have h5 : ((List.range n1).flatMap (fun i => (List.range n2).flatMap (fun j =>
-        pointPairs near mi start end_ (pts1 i) (pts2 j)))).Perm
-      (pointPairs near mi start end_ ((List.range n1).flatMap pts1) ((List.range n2).flatMap pts2)) := by
+        pointPairs near mi start end_ (readable bad1 pts1 i) (readable bad2 pts2 j)))).Perm
+      (pointPairs near mi start end_ ((List.range n1).flatMap (readable bad1 pts1))
+        ((List.range n2).flatMap (readable bad2 pts2))) := by
     rw [pointPairs_flatMap_left]
     exact List.Perm.flatMap_left _ (fun i _ => (pointPairs_flatMap_right near mi start end_ _ _ _).symm)
   exact h1.trans (h2 ▸ (h3.trans (h4.trans h5)))
+
+theorem outcome_nobad (skip : Bool) (coll : Nat → Nat → Option Result) :
+    outcome skip (fun _ => false) (fun _ => false) coll =
+      outcome true (fun _ => false) (fun _ => false) coll := by
+  funext p s; simp [outcome]
+
+theorem readable_nobad (pts : Nat → List Pt) : readable (fun _ => false) pts = pts := by
+  funext i; simp [readable]
 
 end CFiles
